@@ -61,6 +61,15 @@ CHECKS["C05"] = dict(category="model_checking",
     design_ref="5 (C05)", technique="TLA+ patch machine with corruption actions (TLC) + replay into both engines and the CLI + trace validation of random corruptions",
     note="debug assertions and overflow checks on in the harness; BLAKE3 recomputed with the blake3 crate", engine="E")
 
+CHECKS["C20"] = dict(category="model_checking",
+    text="TLC checks the header law on boundary numbers and the reader machine over every combination of header field classes, "
+         "length/payload classes, cut points and message kinds; each case is rendered with a real encoded payload and decoded by "
+         "Codec::read_message / FrameHeader::decode / Message::decode under catch_unwind and a counting allocator; seeded round "
+         "trips (several messages per stream, CLI files) and every single-field corruption of CLI signature/delta files run "
+         "through `copia delta|patch` under RLIMIT_AS and a timeout are decided by CodecTrace.tla.",
+    design_ref="5 (C20), 4.7", technique="TLA+ reader machine + header law (TLC exhaustive over field classes) + replay into the real decoders + trace validation of round trips and CLI outcomes",
+    note="payload fidelity is the identity law only; memory clause by counting allocator (library) and RLIMIT_AS 1 GiB (CLI)", engine="E")
+
 NOT_BUILT = "check not built yet in this round (planned in DESIGN.md section 5)"
 
 
